@@ -158,6 +158,7 @@ def check_scalar(case, ctx):
                 model[a] = _Attr(ABSENT, ("val", init[a]) if a in kw else UNTOUCHED)
         cap.clear()
         pk_expired = [case["start"] == "expired"]
+        modified = [False]  # InstanceState.modified: set by any set/del, reset by flush / full expire only
 
         def load_expired():
             """a load of any expired attribute loads every expired, unmodified attribute"""
@@ -193,6 +194,7 @@ def check_scalar(case, ctx):
                     nontrivial = True
                     classes.add("set-back-to-original")
                 m.cur = ("val", v)
+                modified[0] = True
                 setattr(u, a, v)
             elif op == "del":
                 if m.cur == DELETED:
@@ -216,6 +218,7 @@ def check_scalar(case, ctx):
                         nontrivial = True
                         classes.add("del-unloaded")
                     m.cur = DELETED
+                    modified[0] = True
                     delattr(u, a)
             elif op == "read":
                 if m.cur == DELETED and persistent and m.committed[0] != "known":
@@ -246,7 +249,7 @@ def check_scalar(case, ctx):
                         ctx.exclude("flush after del of a column attribute on a persistent object (known finding)")
                         continue
                 exp_cols = {x: model[x].changed() for x in ATTRS}
-                if persistent and pk_expired[0] and any(model[x].cur != UNTOUCHED for x in ATTRS):
+                if persistent and pk_expired[0] and (modified[0] or any(model[x].cur != UNTOUCHED for x in ATTRS)):
                     load_expired()  # the UPDATE needs the expired primary key: one SELECT loads every expired, unmodified attribute
                 cap.clear()
                 try:
@@ -283,17 +286,32 @@ def check_scalar(case, ctx):
                         mx.committed = ABSENT  # key is simply gone from __dict__ (not expired): reads as None without SQL
                     mx.cur = UNTOUCHED
                 persistent = True
+                modified[0] = False
                 if op == "commit":
                     sess.commit()
                     pk_expired[0] = True
                     for x in ATTRS:
                         model[x].committed = UNKNOWN
                 cap.clear()
+            elif op in ("expire_attr", "refresh_attr"):
+                if not persistent:
+                    ctx.info("skipped:expire-of-pending")
+                    continue
+                if m.cur != UNTOUCHED:
+                    nontrivial = True
+                    classes.add(op + ":discards-pending-change")
+                if op == "expire_attr":
+                    sess.expire(u, [a])  # attribute-level expire: pending change discarded, value = what the database holds
+                    model[a] = _Attr(UNKNOWN, UNTOUCHED)
+                else:
+                    sess.refresh(u, [a])
+                    model[a] = _Attr(("known", db[a]), UNTOUCHED)
             elif op == "expire":
                 if not persistent:
                     ctx.info("skipped:expire-of-pending")
                     continue
                 sess.expire(u)
+                modified[0] = False
                 pk_expired[0] = True
                 for x in ATTRS:
                     model[x] = _Attr(UNKNOWN, UNTOUCHED)
@@ -475,7 +493,12 @@ KINDS = {
     "o2m_set": ("UserS", "AddrS", "addresses", "user", "set"),
     "dict": ("UserD", "Note", "notes", "owner", "dict"),
     "m2m_list": ("Item", "Keyword", "keywords", "items", "list"),
+    # no backref: the parent's collection history is the only carrier of a change
+    "nb_list": ("PlainP", "PItemL", "items_list", None, "list"),
+    "nb_set": ("PlainP", "PItemS", "items_set", None, "set"),
+    "nb_dict": ("PlainP", "PItemD", "items_dict", None, "dict"),
 }
+SIG_DEL_COLL = "C37/del-collection-attribute/removal-not-persisted"
 NCHILD = 5
 DKEYS = ["k0", "k1", "k2", "k0", "k1"]
 
@@ -492,7 +515,9 @@ def check_coll(case, ctx):
     P, C = getattr(F, pname), getattr(F, cname)
     m2m = kind == "m2m_list"
     tables = F.tables_of(P, C) + ([F.item_keyword] if m2m else [])
-    fk = {"o2m_list": "user_id", "o2m_set": "user_id", "dict": "owner_id"}.get(kind)
+    if back is None:
+        tables = F.tables_of(P, F.PItemL, F.PItemS, F.PItemD)
+    fk = {"o2m_list": "user_id", "o2m_set": "user_id", "dict": "owner_id"}.get(kind, "parent_id")
     ctab = C.__tablename__
     eng = F.new_db(tables)
     sess = F.mk_session(eng, autoflush=False)
@@ -511,11 +536,11 @@ def check_coll(case, ctx):
                     conn.exec_driver_sql(f"INSERT INTO {ctab} (id) VALUES (?)", (i + 1,))
                     if i in members0:
                         conn.exec_driver_sql("INSERT INTO item_keyword (item_id, keyword_id) VALUES (1, ?)", (i + 1,))
-                elif kind == "dict":
+                elif ctype == "dict":
                     conn.exec_driver_sql(f"INSERT INTO {ctab} (id, {fk}, key) VALUES (?, ?, ?)", (i + 1, 1 if i in members0 else None, DKEYS[i]))
                 else:
                     conn.exec_driver_sql(f"INSERT INTO {ctab} (id, {fk}) VALUES (?, ?)", (i + 1, 1 if i in members0 else None))
-        if kind == "dict":
+        if ctype == "dict":
             # one key per member in the initial state
             seen = {}
             for i in members0:
@@ -531,7 +556,7 @@ def check_coll(case, ctx):
             if i < npersist:
                 children.append(sess.get(C, i + 1))
             else:
-                children.append(C(id=i + 1, key=DKEYS[i]) if kind == "dict" else C(id=i + 1))
+                children.append(C(id=i + 1, key=DKEYS[i]) if ctype == "dict" else C(id=i + 1))
         in_db = set(range(npersist))  # children that have a row
         in_sess = set(range(npersist))
         db_members = set(members0)
@@ -555,6 +580,9 @@ def check_coll(case, ctx):
                 getattr(p, attr)
         p_persistent = not new_parent
         touched = False  # a mutation happened since load/flush
+        del_pending = False  # `del obj.coll` hit a loaded collection of a persistent parent and was not discarded yet (known finding)
+        p_committed = not new_parent
+        c_in_db, c_db_members = set(in_db), set(db_members)  # state of the last COMMIT (for rollback)
         moved = set()  # children whose membership was toggled since the last flush
 
         def items(coll):
@@ -627,6 +655,69 @@ def check_coll(case, ctx):
         verify(-1, "init")
         for step, opd in enumerate(case["ops"]):
             op, a, b = opd[0], opd[1], opd[2]
+            if op in ("del_attr", "expire_attr", "refresh_attr", "rollback") and back is not None:
+                ctx.info("skipped:attribute-level-op-on-backref-kind")  # the other side would keep its own pending change
+                continue
+            if del_pending and op not in ("expire_attr", "refresh_attr", "rollback", "expire"):
+                # everything downstream of the blank history left by `del obj.coll` belongs to the registered finding
+                ctx.exclude("op after `del obj.coll` on a loaded collection before the change is discarded (known finding " + SIG_DEL_COLL + ")")
+                continue
+            if op == "del_attr":
+                in_dict = attr in p.__dict__
+                if not in_dict:
+                    delattr(p, attr)  # documented no-op when the collection is not present
+                    classes.add("del_attr:not-loaded")
+                elif not p_persistent:
+                    delattr(p, attr)
+                    ensure_loaded()
+                    moved |= set(cur)
+                    del cur[:]
+                    touched = True
+                    classes.add("del_attr:pending-parent")
+                else:
+                    delattr(p, attr)
+                    del_pending = True
+                    classes.add("del_attr:persistent-loaded")
+                    classes.add(op)
+                    continue  # history after this point is what the finding is about
+                classes.add(op)
+                verify(step, op)
+                continue
+            if op in ("expire_attr", "refresh_attr"):
+                if not p_persistent:
+                    ctx.info("skipped:expire-of-pending")
+                    continue
+                was_del = del_pending
+                if touched or was_del:
+                    nontrivial = True
+                    classes.add(op + ":discards-pending-change")
+                if was_del:
+                    classes.add(op + ":after-del_attr")
+                if op == "expire_attr":
+                    sess.expire(p, [attr])
+                else:
+                    sess.refresh(p, [attr])
+                committed, cur, touched, del_pending = UNKNOWN, None, False, False
+                moved.clear()
+                if op == "refresh_attr":
+                    ensure_loaded()
+                classes.add(op)
+                verify(step, op)
+                continue
+            if op == "rollback":
+                if not p_committed:
+                    ctx.info("skipped:rollback-before-first-commit")
+                    continue
+                if touched or del_pending:
+                    nontrivial = True
+                    classes.add("rollback:discards-pending-change")
+                sess.rollback()
+                in_db, in_sess, db_members = set(c_in_db), set(c_in_db), set(c_db_members)
+                committed, cur, touched, del_pending, p_persistent = UNKNOWN, None, False, False, True
+                moved.clear()
+                classes.add(op)
+                verify(step, op)
+                continue
             if op in ("flush", "commit"):
                 added, _unch, deleted = expected()
                 pend_children = sorted(in_sess - in_db)
@@ -684,16 +775,22 @@ def check_coll(case, ctx):
                 if op == "commit":
                     sess.commit()
                     committed, cur = UNKNOWN, None
+                    p_committed = True
+                    c_in_db, c_db_members = set(in_db), set(db_members)
                 cap.clear()
                 classes.add(op)
                 verify(step, op)
                 continue
             if op == "expire":
-                if not p_persistent or touched:
+                if not p_persistent or (touched and back is not None):
                     ctx.info("skipped:expire-with-pending-changes")
                     continue
+                if touched or del_pending:
+                    nontrivial = True
+                    classes.add("expire:discards-pending-change")
                 sess.expire(p)
-                committed, cur = UNKNOWN, None
+                committed, cur, touched, del_pending = UNKNOWN, None, False, False
+                moved.clear()
                 classes.add(op)
                 verify(step, op)
                 continue
@@ -707,7 +804,7 @@ def check_coll(case, ctx):
             ensure_loaded()
             snapshot = set(cur)
             if op in ("child_set", "child_clear"):
-                if m2m or kind == "dict":
+                if m2m or ctype == "dict" or back is None:
                     op = "append" if op == "child_set" else "remove"
             if op in ("child_set", "child_clear"):
                 # backref side; the parent's collection must be loaded for the event to reach it (documented limitation otherwise)
@@ -889,7 +986,7 @@ _small = st.integers(0, 7)
 
 @st.composite
 def _scalar_programs(draw):
-    ops = draw(st.lists(st.tuples(st.sampled_from(["set"] * 5 + ["del", "read", "flush", "flush", "commit", "expire"]), st.integers(0, 1), st.integers(0, 3)), min_size=1, max_size=20))
+    ops = draw(st.lists(st.tuples(st.sampled_from(["set"] * 5 + ["del", "del", "read", "flush", "flush", "commit", "expire", "expire_attr", "refresh_attr"]), st.integers(0, 1), st.integers(0, 3)), min_size=1, max_size=20))
     init = {"name": draw(st.sampled_from(VALS)), "nick": draw(st.sampled_from(VALS)), "name_set": draw(st.booleans()), "nick_set": draw(st.booleans())}
     return {"start": draw(st.sampled_from(["new", "loaded", "expired"])), "init": init, "ops": [list(o) for o in ops]}
 
@@ -901,14 +998,31 @@ def _ref_programs(draw):
             "parents_loaded": True, "ops": [list(o) for o in ops]}
 
 
-_COLL_OPS = ["append"] * 3 + ["insert", "setitem", "remove", "remove", "pop", "extend", "replace", "replace", "clear", "child_set", "child_clear", "flush", "flush", "commit", "expire", "read"]
+_COLL_OPS = ["del_attr", "del_attr", "expire_attr", "expire_attr", "refresh_attr", "rollback"] + ["append"] * 3 + ["insert", "setitem", "remove", "remove", "pop", "extend", "replace", "replace", "clear", "child_set", "child_clear", "flush", "flush", "commit", "expire", "read"]
+
+
+_ATTR_LEVEL = ["del_attr", "del_attr", "expire_attr", "expire_attr", "refresh_attr", "rollback"]
+_KIND_POOL = sorted(KINDS) + ["o2m_list", "o2m_set", "dict", "m2m_list"] + ["nb_list", "nb_set", "nb_dict"] * 2  # no-backref kinds carry the attribute-level ops
 
 
 @st.composite
 def _coll_programs(draw):
-    ops = draw(st.lists(st.tuples(st.sampled_from(_COLL_OPS), _small, _small, st.lists(_small, max_size=4)), min_size=1, max_size=20))
-    return {"kind": draw(st.sampled_from(sorted(KINDS))), "start": draw(st.sampled_from(["new", "loaded", "expired"])), "npersist": draw(st.integers(0, 5)),
-            "members": draw(st.lists(_small, max_size=4)), "ops": [list(o) for o in ops]}
+    kind = draw(st.sampled_from(_KIND_POOL))
+    nb = kind.startswith("nb_")
+    names = [o for o in _COLL_OPS if nb or o not in _ATTR_LEVEL] + (["del_discard"] * 3 if nb else [])
+    raw = draw(st.lists(st.tuples(st.sampled_from(names), _small, _small, st.lists(_small, max_size=4)), min_size=1, max_size=20))
+    ops = []
+    for o in raw:
+        if o[0] == "del_discard":
+            # macro: load, `del obj.coll`, discard the change (attribute-level expire / refresh / rollback / full expire), look again
+            ops.append(["read", 0, 0, []])
+            ops.append(["del_attr", 0, 0, []])
+            ops.append([["expire_attr", "refresh_attr", "expire_attr", "refresh_attr", "rollback", "expire"][o[1] % 6], 0, 0, []])
+            ops.append(["read", 0, 0, []])
+        else:
+            ops.append(list(o))
+    return {"kind": kind, "start": draw(st.sampled_from(["new", "loaded", "expired"])), "npersist": draw(st.integers(0, 5)),
+            "members": draw(st.lists(_small, max_size=4)), "ops": ops[:24]}
 
 
 def subs(tier):
